@@ -1,6 +1,7 @@
 import Driver.Common
 import Driver.Sec
 import Emitter.Model.Broker
+import Emitter.Model.Mqtt
 namespace Driver.Brk
 open Emitter Emitter.Security Emitter.Broker Emitter.Trie Driver
 
@@ -114,6 +115,39 @@ def stepLine (st : St) (ws : List String) (_impl : String) : St × Ans :=
           apply st name (.presence (UInt16.ofNat mid) ks chan (status == "1") ch) false false none
       | _, _, _ => (st, bad)
   | ["close", name] => apply st name .close true false (some name)
+  | ["disc", name] => apply st name .close true false (some name)
+  | ["rawclose", name, _] => apply st name .close true false (some name)
+  | "cutsend" :: name :: k :: inner =>
+      -- the first k bytes of the packet of the inner op, then the socket is dropped: a truncated
+      -- packet has no effect (DecodePacket fails), a complete one is served first
+      let req : Option (Req × Mqtt.Packet) :=
+        match inner with
+        | ["sub", _, mid, kk, rest, qos] =>
+            match mid.toNat?, st.topic kk rest, qos.toNat? with
+            | some mid, some t, some q =>
+                some (.subscribe (UInt16.ofNat mid) t (UInt8.ofNat q),
+                      .subscribe ⟨false, 1, false⟩ (UInt16.ofNat mid) [⟨t, UInt8.ofNat q⟩])
+            | _, _, _ => none
+        | ["unsub", _, mid, kk, rest] =>
+            match mid.toNat?, st.topic kk rest with
+            | some mid, some t => some (.unsubscribe (UInt16.ofNat mid) t, .unsubscribe ⟨false, 1, false⟩ (UInt16.ofNat mid) [⟨t, 0⟩])
+            | _, _ => none
+        | ["pub", _, qos, retain, mid, kk, rest, payload] =>
+            match qos.toNat?, mid.toNat?, st.topic kk rest, bytesOfHex payload with
+            | some q, some mid, some t, some p =>
+                some (.publish (UInt8.ofNat q) (retain == "1") (UInt16.ofNat mid) t p,
+                      .publish ⟨false, UInt8.ofNat q, retain == "1"⟩ t (UInt16.ofNat mid) p)
+            | _, _, _, _ => none
+        | _ => none
+      match k.toNat?, req with
+      | some k, some (r, pkt) =>
+          let len := (Mqtt.encodeWire pkt).length
+          if k ≥ len then
+            let (b1, out1) := step st.auth st.b name r
+            let (b2, out2) := step st.auth b1 name .close
+            ({ st with b := b2 }, { m := renderOut st (out1 ++ out2) true false (some name) })
+          else apply st name .close true false (some name)
+      | _, _ => (st, bad)
   | ["dump"] =>
       let pairs := st.b.trie.root.abs.map (fun e =>
         let owner := match st.b.conns.find? (fun c => c.key == e.2) with
